@@ -75,7 +75,7 @@ func (fc *FnCtx) generateOnce(res *FuncResult) *Frame {
 	pkgName := fn.Pkg.Pkg.Name()
 	vars := map[string]Term{}
 	for _, p := range fn.Params {
-		name := "p_" + identOf(p.Name())
+		name := "arg_" + identOf(p.Name())
 		fc.emit(fmt.Sprintf("(declare-const %s %s)", name, fc.sortOf(p.Type())))
 		t := mk(name, fc.sortOf(p.Type()), p.Type())
 		fr.vals[p] = t
